@@ -153,3 +153,33 @@ def install(S, models):
     import re
     S.ctx.models.table[:0] = [(re.compile(rx), fn) for rx, fn in models]
     S.ctx.models.cache.clear()
+
+
+def felt_contract_models(S):
+    """rule-local models for Felt + - * neg as the *contracts proved under C12* (for every canonical argument the
+    result is canonical and its residue class is the operation on the classes), tracking exact residue-class
+    polynomials; constants without a class get the class of their value"""
+    from fv.absint import p_add, p_mul, p_const
+    from fv.models import ret1
+    from fv.oracle import Q
+    ctx = S.ctx
+    u32 = S.ty("u32")
+
+    def felt_op(op):
+        def f(E, st, fr, bi, callee, args, dest_ty):
+            xs = [a.f[0] for a in args]
+            rs = []
+            for x in xs:
+                r = st.res.get(x.vid)
+                if r is None:
+                    c = st.const(x)
+                    r = p_const(c) if c is not None else None
+                rs.append(r)
+            tt = frozenset().union(*[st.taint.get(x.vid) or frozenset() for x in xs])
+            z = ctx.mk_int(st, 0, Q - 1, u32, taint=tt if tt else False)
+            if all(r is not None for r in rs):
+                st.res[z.vid] = {"add": lambda: p_add(rs[0], rs[1]), "sub": lambda: p_add(rs[0], rs[1], -1), "mul": lambda: p_mul(rs[0], rs[1]), "neg": lambda: p_add({}, rs[0], -1)}[op]()
+            return ret1(Ag((z,)), st)
+        return f
+    FE = r"^<falcon_rust::falcon_field::Felt as std::ops::"
+    return [(FE + r"Add>::add$", felt_op("add")), (FE + r"Sub>::sub$", felt_op("sub")), (FE + r"Mul>::mul$", felt_op("mul")), (FE + r"Neg>::neg$", felt_op("neg"))]
